@@ -106,4 +106,146 @@ theorem ilog2Q_spec {num den : Nat} (hn : num ≠ 0) (hd : den ≠ 0) :
     rw [Nat.mul_comm num]
     exact Nat.mul_le_mul (Nat.le_of_lt hdu) hnl
 
+/-! ## round-half-even quotient -/
+
+/-- `n/d` rounded to the nearest integer, ties to even (the `q`/`rem` step of `roundNE`). -/
+def rhe (n d : Nat) : Nat :=
+  if 2 * (n % d) > d ∨ (2 * (n % d) = d ∧ (n / d) % 2 = 1) then n / d + 1 else n / d
+
+theorem rhe_spec (n : Nat) {d : Nat} (hd : 0 < d) :
+    2 * (d * rhe n d) ≤ 2 * n + d ∧ 2 * n ≤ 2 * (d * rhe n d) + d ∧
+    (2 * (d * rhe n d) = 2 * n + d → rhe n d % 2 = 0) ∧
+    (2 * n = 2 * (d * rhe n d) + d → rhe n d % 2 = 0) := by
+  have h1 := Nat.div_add_mod n d
+  have h2 := Nat.mod_lt n hd
+  unfold rhe
+  split
+  · rw [Nat.mul_succ]; omega
+  · omega
+
+theorem rhe_scale (c n d : Nat) (hc : 0 < c) : rhe (c * n) (c * d) = rhe n d := by
+  unfold rhe
+  rw [Nat.mul_div_mul_left _ _ hc, Nat.mul_mod_mul_left]
+  have e1 : (2 * (c * (n % d)) > c * d) ↔ (2 * (n % d) > d) := by
+    rw [show 2 * (c * (n % d)) = c * (2 * (n % d)) by rw [Nat.mul_left_comm]]
+    exact Nat.mul_lt_mul_left hc
+  have e2 : (2 * (c * (n % d)) = c * d) ↔ (2 * (n % d) = d) := by
+    rw [show 2 * (c * (n % d)) = c * (2 * (n % d)) by rw [Nat.mul_left_comm]]
+    exact Nat.mul_right_inj (Nat.ne_of_gt hc)
+  simp only [e1, e2]
+
+/-! ## `roundNE` in structured form -/
+
+def scaled (num den : Nat) (lsb : Int) : Nat × Nat :=
+  if lsb ≥ 0 then (num, den * 2 ^ lsb.toNat) else (num * 2 ^ (-lsb).toNat, den)
+def lsbOf (f : Fmt) (e : Int) : Int :=
+  if e - ((f.p : Int) - 1) < f.eminLsb then f.eminLsb else e - ((f.p : Int) - 1)
+def renorm (f : Fmt) (q : Nat) (lsb : Int) : Nat × Int :=
+  if q = 2 ^ f.p then (2 ^ (f.p - 1), lsb + 1) else (q, lsb)
+def pack (f : Fmt) (q : Nat) (lsb : Int) : Nat :=
+  if q < 2 ^ (f.p - 1) then q
+  else if lsb + ((f.p : Int) - 1) + (f.bias : Int) ≥ (f.maxExpField : Int) then f.infBits
+  else (lsb + ((f.p : Int) - 1) + (f.bias : Int)).toNat * 2 ^ (f.p - 1) + (q - 2 ^ (f.p - 1))
+
+theorem roundNE_unfold (f : Fmt) (num den : Nat) : roundNE f num den =
+    if num = 0 then 0 else
+      let lsb := lsbOf f (ilog2Q num den)
+      let s := scaled num den lsb
+      let r := renorm f (rhe s.1 s.2) lsb
+      pack f r.1 r.2 := by rfl
+
+/-- well-formed format: at least 2 bits of precision and of exponent -/
+structure WF (f : Fmt) : Prop where
+  hp : 2 ≤ f.p
+  he : 2 ≤ f.ebits
+
+theorem wf_f64 : WF f64 := ⟨by decide, by decide⟩
+theorem wf_f32 : WF f32 := ⟨by decide, by decide⟩
+
+/-- `L = -eminLsb`: every finite float is an integer multiple of `2^-L`. -/
+def L (f : Fmt) : Nat := f.bias + (f.p - 1) - 1
+
+theorem bias_pos {f : Fmt} (hf : WF f) : 1 ≤ f.bias := by
+  unfold Fmt.bias
+  have : 2 ^ 1 ≤ 2 ^ (f.ebits - 1) := Nat.pow_le_pow_right (by decide) (by have := hf.he; omega)
+  omega
+
+theorem eminLsb_eq {f : Fmt} (hf : WF f) : f.eminLsb = -((L f : Nat) : Int) := by
+  have := bias_pos hf
+  have := hf.hp
+  unfold Fmt.eminLsb L
+  omega
+
+/-- exponent (relative to `-L`) of the last kept bit -/
+def kOf (f : Fmt) (e : Int) : Nat := (e + (L f : Int) - ((f.p - 1 : Nat) : Int)).toNat
+
+theorem lsbOf_eq {f : Fmt} (hf : WF f) (e : Int) : lsbOf f e = (kOf f e : Int) - (L f : Int) := by
+  have := hf.hp
+  unfold lsbOf kOf
+  rw [eminLsb_eq hf]
+  split <;> omega
+
+theorem scaled_rhe (num den : Nat) (lsb : Int) (l : Nat) (h : 0 ≤ lsb + l) :
+    rhe (scaled num den lsb).1 (scaled num den lsb).2 = rhe (num * 2 ^ l) (den * 2 ^ (lsb + l).toNat) := by
+  unfold scaled
+  split
+  · have : (lsb + l).toNat = lsb.toNat + l := by omega
+    rw [this, Nat.pow_add, ← Nat.mul_assoc, Nat.mul_comm num, Nat.mul_comm (den * _)]
+    exact (rhe_scale _ _ _ (Nat.two_pow_pos l)).symm
+  · obtain ⟨j, hj⟩ : ∃ j : Nat, (-lsb).toNat = j := ⟨_, rfl⟩
+    have h2 : l = j + (lsb + l).toNat := by omega
+    rw [hj]
+    generalize (lsb + l).toNat = t at h2
+    subst h2
+    show rhe (num * 2 ^ j) den = _
+    rw [Nat.pow_add, ← Nat.mul_assoc, Nat.mul_comm (num * 2 ^ j), Nat.mul_comm den]
+    exact (rhe_scale _ _ _ (Nat.two_pow_pos t)).symm
+
+theorem pow_bounds {f : Fmt} (hf : WF f) {num den : Nat} (hn : num ≠ 0) (hd : den ≠ 0) :
+    (0 < kOf f (ilog2Q num den) →
+        den * 2 ^ (f.p - 1 + kOf f (ilog2Q num den)) ≤ num * 2 ^ (L f)) ∧
+    num * 2 ^ (L f) < den * 2 ^ (f.p + kOf f (ilog2Q num den)) := by
+  obtain ⟨hlo, hhi⟩ := ilog2Q_spec hn hd
+  have hp := hf.hp
+  generalize ilog2Q num den = e at *
+  generalize hk : kOf f e = k
+  unfold kOf at hk
+  constructor
+  · intro hk0
+    have h := le2_anti (e := ((f.p - 1 + k : Nat) : Int) - (L f : Int)) (by omega) hlo
+    rw [le2_shift _ _ _ (L f) (by omega)] at h
+    have e1 : (((f.p - 1 + k : Nat) : Int) - (L f : Int) + (L f : Int)).toNat = f.p - 1 + k := by omega
+    rwa [e1] at h
+  · apply Nat.lt_of_not_le
+    intro hc
+    apply hhi
+    have h : le2 den num (((f.p + k : Nat) : Int) - (L f : Int)) := by
+      rw [le2_shift _ _ _ (L f) (by omega)]
+      have e1 : (((f.p + k : Nat) : Int) - (L f : Int) + (L f : Int)).toNat = f.p + k := by omega
+      rwa [e1]
+    exact le2_anti (by omega) h
+
+theorem rhe_ge (n d : Nat) : n / d ≤ rhe n d ∧ rhe n d ≤ n / d + 1 := by
+  unfold rhe; split <;> omega
+
+theorem q0_bounds {f : Fmt} (hf : WF f) {num den : Nat} (hn : num ≠ 0) (hd : den ≠ 0) :
+    (0 < kOf f (ilog2Q num den) →
+      2 ^ (f.p - 1) ≤ rhe (num * 2 ^ (L f)) (den * 2 ^ kOf f (ilog2Q num den))) ∧
+    rhe (num * 2 ^ (L f)) (den * 2 ^ kOf f (ilog2Q num den)) ≤ 2 ^ f.p := by
+  obtain ⟨h1, h2⟩ := pow_bounds hf hn hd
+  generalize kOf f (ilog2Q num den) = k at *
+  have hD : 0 < den * 2 ^ k := Nat.mul_pos (Nat.pos_of_ne_zero hd) (Nat.two_pow_pos k)
+  obtain ⟨g1, g2⟩ := rhe_ge (num * 2 ^ (L f)) (den * 2 ^ k)
+  constructor
+  · intro hk
+    refine Nat.le_trans ?_ g1
+    rw [Nat.le_div_iff_mul_le hD]
+    have := h1 hk
+    rwa [show den * 2 ^ (f.p - 1 + k) = 2 ^ (f.p - 1) * (den * 2 ^ k) by
+      rw [Nat.pow_add]; ac_rfl] at this
+  · have : num * 2 ^ (L f) / (den * 2 ^ k) < 2 ^ f.p := by
+      rw [Nat.div_lt_iff_lt_mul hD]
+      rwa [show den * 2 ^ (f.p + k) = 2 ^ f.p * (den * 2 ^ k) by rw [Nat.pow_add]; ac_rfl] at h2
+    omega
+
 end LexVerif.Proof.RoundNE
